@@ -249,7 +249,10 @@ class Machine:
         color = self._as_raw_color(self._reg.get_color())
         duration = self._as_raw_time(self._reg.duration)
         for light in lights:
-            light.set_color(color, duration)
+            # The refresh thread may have expired a light after its name was
+            # found in the group or location.
+            if light is not None:
+                light.set_color(color, duration)
 
     def _color_default(self) -> None:
         # The "default" register must always contain raw values.
@@ -300,7 +303,8 @@ class Machine:
     def _power_multiple(self, lights) -> None:
         power = self._reg.get_power()
         for light in lights:
-            light.set_power(power, self._reg.duration)
+            if light is not None:
+                light.set_power(power, self._reg.duration)
 
     @inject(LightSet)
     def _get_color(self, light_set) -> None:
